@@ -4,7 +4,7 @@ TECHNIQUE = "CBMC bounded symbolic execution of evutil_inet_ntop/evutil_inet_pto
 UNITS = ["evutil.c", "strlcpy.c"]
 FUNCTIONS = ["evutil_inet_ntop", "evutil_inet_pton", "evutil_inet_pton_scope", "evutil_parse_sockaddr_port", "evutil_format_sockaddr_port_", "event_strlcpy_"]
 BOUNDS = "ntop: every IPv4 address x len 0..18, IPv6: every IPv4-compatible/-mapped address x len 0..24; hex form: quick = addresses with five consecutive zero words (3 placements) x len 0..41, thorough = every address (2^128) x len 0..41 plus parse-back of the full text; pton: every byte string of length <= L (v4 L=9, v6 L=7 quick / 10 and 9 thorough); sockaddr text round trip: every IPv4/IPv6 address and non-zero port"
-OUT = "strings longer than L (e.g. v4 components that overflow 2^32 need >= 10 digits); zone ids with real interface names (if_nametoindex stub returns 0); the platform's own inet_pton/inet_ntop are not encoded: the reference is a transcription of glibc's algorithm, cross-checked natively on 50M strings during development"
+OUT = "evutil_parse_sockaddr_port / evutil_format_sockaddr_port_ round trip: NOT decided (every encoding tried -- whole round trip, fixed address with symbolic port digits, path-wise symex -- ran out of 5-8 GB or time: the parser re-scans the text with strchr/memcpy/atoi/inet_pton_scope and cbmc walks the IPv6 and IPv4 interpretations of every symbolic digit); a seeded change of the port bound (65535) is therefore not caught; strings longer than L (e.g. v4 components that overflow 2^32 need >= 10 digits); zone ids with real interface names (if_nametoindex stub returns 0); the platform's own inet_pton/inet_ntop are not encoded: the reference is a transcription of glibc's algorithm, cross-checked natively on 50M strings during development"
 TEXT = "Solver decides over all addresses and buffer lengths that a successful ntop is complete, terminated, inside the buffer and maps back to the same address under a strict parser, and over all short strings that pton accepts exactly the strict grammar with the same address."
 NOTE = "Trusted: cbmc; env/inet_fmt.h models of vsnprintf/sscanf/strtol (native replay links glibc instead, so model errors do not reproduce); ref/inet_ref.h."
 ASSUMPTIONS = ["vsnprintf/sscanf/strtol behave as env/inet_fmt.h (C99/glibc semantics for %d %u %x %s %c)", "if_nametoindex returns 0 (no such interface)"]
@@ -40,13 +40,7 @@ def obligations(tier):
         o = dict(HEXLEN); o["name"] = "ntop6_hex_len_zero%d_%d" % (f, t); o["defines"] = HEXLEN["defines"] + ["VP_ZERO_FROM=%d" % f, "VP_ZERO_TO=%d" % t]
         o["timeout"] = 900; o["desc"] = "words %d..%d zero, the other three words symbolic, every len 0..41: success iff complete text + NUL fit" % (f, t)
         obs.append(o)
-    for fam in ("V4", "V6"):
-        for nd in (() if q else (1, 2, 3, 4, 5)):   # thorough only: > 500 s each even path-wise (quick tier therefore does not see a change of the port bounds)
-            obs.append(dict(name="parse_port_%s_%ddigits" % (fam.lower(), nd), harness="C40_inet.c", entry="harness_parse_port", defines=["VP_RT_" + fam, "VP_NDIG=%d" % nd], unwind=24, timeout=3000, mem_gb=6, no_trace=True,
-                            unwindset=["vp_memset_b.0:132", "vp_memcpy.0:132"], cbmc=["--paths", "lifo"],   # path-wise symex: infeasible IPv6/IPv4 mis-branches are pruned by the solver
-                            desc="evutil_parse_sockaddr_port on a fixed %s address followed by every %d-digit port in 1..65535: accepted with exactly that port" % (fam, nd)))
     if not q:
         obs.append(HEXLEN)
         obs.append(HEXFULL)
-        obs.append(dict(name="sockaddr_roundtrip", harness="C40_inet.c", entry="harness_sockaddr_roundtrip", unwind=130, timeout=2400, mem_gb=16, desc="format -> parse for all addresses, non-zero ports"))
     return obs
